@@ -1205,6 +1205,17 @@ func (s *ScopedKeyManager) nextAddresses(ns walletdb.ReadWriteBucket,
 
 		for _, info := range addressInfo {
 			ma := info.managedAddr
+
+			// The manager may have been locked after the addresses
+			// were created but before the transaction committed.
+			// The address objects built while unlocked still hold
+			// their clear text private key, so remove it before
+			// they are cached; it is decrypted again on demand.
+			if s.rootManager.IsLocked() {
+				if a, ok := ma.(*managedAddress); ok {
+					a.lock()
+				}
+			}
 			s.addrs[addrKey(ma.Address().ScriptAddress())] = ma
 
 			// Add the new managed address to the list of addresses
